@@ -35,11 +35,11 @@ S["C09"] = dict(title="Emitted packets decode to the request; invalid arguments 
     H("verifH_C09_nofilters", "L09.c no filters"),
     H("verifH_C09_requestsizes", "L09.c SUBSCRIBE/UNSUBSCRIBE remaining length 126..129 and 16382..16385 (concrete long filter)", reach=("encoded","canceled")),
     H("verifH_C09_connectsizes", "L09.d CONNECT with client identifier, user name, password, will topic and will message of 1/255/256/300 bytes, each length chosen independently: every two-byte length prefix and the remaining length vs the reference"  , reach=("encoded",)),
-    H("verifH_C09_connect", "L09.d Config.valid + CONNECT bytes vs reference", T({"maxcid":1,"maxuser":1,"maxwtopic":1}), T({"maxcid":2,"maxuser":2,"maxwtopic":2}, time_sec=1500), ("encoded","invalid")),
+    H("verifH_C09_connect", "L09.d Config.valid + CONNECT bytes vs reference", T({"maxcid":1,"maxuser":1,"maxwtopic":1}), T({"maxcid":1,"maxuser":2,"maxwtopic":2}, time_sec=3600), ("encoded","invalid")),
   ],
   assumptions=["reference encoder/UTF-8 DFA in harness/zz_verif_ref.go is the oracle (written from OASIS MQTT 3.1.1 and RFC 3629)",
     "unicode/utf8.ValidString executed from SSA including its tables (package init run concretely)"],
-  bounds={"quick":"strings <= 3 symbolic bytes (+ concrete 65535/65536), topic <= 2, payload <= 2 symbolic bytes + concrete sizes to 16384, <= 2 filters of <= 2 bytes, CONNECT fields <= 1-2 bytes","thorough":"strings <= 5 symbolic bytes, topic <= 4, payload <= 3, filters <= 3 bytes, CONNECT fields <= 2 bytes"},
+  bounds={"quick":"strings <= 3 symbolic bytes (+ concrete 65535/65536), topic <= 2, payload <= 2 symbolic bytes + concrete sizes to 16384, <= 2 filters of <= 2 bytes, CONNECT fields <= 1-2 bytes","thorough":"strings <= 5 symbolic bytes, topic <= 4, payload <= 3, filters <= 3 bytes, CONNECT user name and will topic <= 2 symbolic bytes (client identifier 1), and every field at 1/255/256/300 concrete bytes"},
   outside=["strings longer than 5 symbolic bytes (validator is byte-local)","payload *content* for sizes above 16384 bytes (the all-lengths harness checks the header and the size arithmetic; the payload slice is passed through untouched by publishPacket)","SUBSCRIBE/UNSUBSCRIBE packets over 268,435,455 bytes (needs > 4096 filters)","more than 2 filters"])
 S["C15"] = dict(title="Stored records round-trip; single-byte damage always detected", technique=TECH+"; inductive hash-step lemma over the real hash/fnv code", harnesses=[
     H("verifH_C15_hashstep", "L15.a one step of real sum32a.Write is injective in state and in byte", reach=("state-injective","byte-injective")),
